@@ -196,3 +196,50 @@ def lambda_names(fnode, pattern):
             if match(pat, n.value.body) is not None:
                 out.add(n.targets[0].id)
     return out
+
+
+_NEG = {ast.NotEq: ast.Eq, ast.NotIn: ast.In, ast.IsNot: ast.Is,
+        ast.GtE: ast.Lt, ast.Gt: ast.LtE}
+
+
+def _atoms(t, pol, out):
+    if isinstance(t, ast.UnaryOp) and isinstance(t.op, ast.Not):
+        _atoms(t.operand, not pol, out)
+    elif isinstance(t, ast.BoolOp) and isinstance(t.op, ast.And) and pol:
+        for v in t.values:
+            _atoms(v, True, out)
+    elif isinstance(t, ast.BoolOp) and isinstance(t.op, ast.Or) and not pol:
+        for v in t.values:
+            _atoms(v, False, out)
+    elif isinstance(t, ast.Compare) and len(t.ops) == 1 and \
+            type(t.ops[0]) in _NEG:
+        pos = ast.Compare(left=t.left, ops=[_NEG[type(t.ops[0])]()],
+                          comparators=t.comparators)
+        out.append((pos, not pol))
+    else:
+        out.append((t, pol))
+
+
+def guard_atoms(cfg, node):
+    """Facts that hold when control reaches `node`, from its dominating
+    branch edges: [(expr, truth)] with negations, conjunctions (true edge)
+    and disjunctions (false edge) split and comparisons normalised to their
+    positive operator (`a != b` true  ==  `a == b` false)."""
+    out = []
+    for (t, pol, _gn) in cfg.guards(node):
+        if isinstance(t, ast.expr):
+            _atoms(t, pol, out)
+    return out
+
+
+def guarded(cfg, node, pattern, truth=True):
+    """Some dominating fact matches `pattern` with the given truth value."""
+    from mstatic.pattern import match, P as _P
+    pat = _P(pattern) if isinstance(pattern, str) else pattern
+    want = []
+    _atoms(pat, truth, want)
+    for (wp, wt) in want:
+        if not any(at == wt and match(wp, a) is not None
+                   for a, at in guard_atoms(cfg, node)):
+            return False
+    return True
